@@ -666,7 +666,46 @@ def run_multitype(case, part):
     return ("M", i, row, None)
 
 
+def run_address_history(case, part):
+    """HISTORY across the special-value canonicalisers: an address text met first under its own family's path (ipv4-addr:value / ipv6-addr:value), then under the other
+    family's path and under an ordinary path - the answer for a pair never depends on which patterns were compared before.  Each case uses texts of its own, so that
+    every case starts cold whatever ran earlier in the worker."""
+    env.reset()
+    i = case["row"]
+    a, b = "10.%d.2.3/8" % i, "10.0.0.0/8"                 # equal networks as IPv4 CIDR texts, unequal as plain strings
+    c6, d6 = "2001:db8:%x::1/32" % i, "2001:db8::/32"
+    fam = lambda t, v: "[%s:value = '%s']" % (t, v)
+    questions = [(fam("ipv6-addr", a), fam("ipv6-addr", b)), (fam("x-other", a), fam("x-other", b)), (fam("ipv4-addr", c6), fam("ipv4-addr", d6)), (fam("domain-name", c6), fam("domain-name", d6)),
+                 (fam("ipv4-addr", a), fam("ipv4-addr", b)), (fam("ipv6-addr", c6), fam("ipv6-addr", d6))]
+    primers = [(fam("ipv4-addr", a), fam("ipv4-addr", b)), (fam("ipv6-addr", c6), fam("ipv6-addr", d6)), (fam("ipv6-addr", a), fam("ipv6-addr", b)), (fam("ipv4-addr", c6), fam("ipv4-addr", d6))]
+    cold = {}
+    order = case.get("order", 0)
+    qs = questions if order == 0 else list(reversed(questions))
+    for p, q in qs[:4]:
+        cold[(p, q)] = call_eq(p, q)[0]
+        part.transitions += 1
+    for p, q in primers:
+        call_eq(p, q)
+        part.transitions += 1
+    for p, q in qs[:4]:
+        part.evaluations += 1
+        part.transitions += 1
+        warm = call_eq(p, q)[0]
+        part.state(("address-history", i, order, p, q, warm))
+        if warm != cold[(p, q)]:
+            part.outcome("address-history:DIFFERS")
+            part.violation("C09/answer-depends-on-earlier-comparisons/address-constants", "the same pair of patterns is answered differently after other patterns with the same constant texts were compared",
+                           dict(case, p=p, q=q), cold[(p, q)], warm)
+        else:
+            part.outcome("address-history:same")
+        # soundness on its own: as plain strings (any path but the own family's) the two texts are different constants
+        if warm == "1" and not (p.startswith("[ipv4-addr") and "10." in p) and not (p.startswith("[ipv6-addr") and "2001" in p):
+            part.violation("C09/unsound/address-text-under-another-path", "address texts that differ as strings are reported equivalent under a path where they are not addresses of that family", dict(case, p=p, q=q), "different", "equivalent")
+
+
 def run_case(case, part):
+    if case["kind"] == "address-history":
+        return run_address_history(case, part)
     if case["kind"] == "row":
         return run_row(case, part)
     if case["kind"] == "numbers":
@@ -682,6 +721,8 @@ def run_case(case, part):
 
 def replay(case, part):
     th = case.get("thorough", False)
+    if case.get("kind") == "address-history":
+        return run_address_history({"kind": "address-history", "row": case["row"], "order": case.get("order", 0)}, part)
     if "rewrite" in case:
         rc = rewrite_cases(th)
         for i, (rule, p, q) in enumerate(rc):
@@ -827,6 +868,7 @@ def run(run):
     # the same rewrite instances once more, each chunk after a warm-up of 600 ordinary comparisons in the same process: the answer must not depend on
     # how much the process has already compared
     cases += [{"kind": "rewrites", "lo": lo, "hi": lo + 50, "thorough": th, "phase": "late"} for lo in range(0, nrw, 50)]
+    cases += [{"kind": "address-history", "row": i, "order": i % 2} for i in range(1, 9)]
     run.mode = "DEV (all ordered pairs)"
     run.part.results = []
     run.pmap(run_case, cases)
